@@ -126,7 +126,9 @@ def run(tier, seed):
         a, b, words = pair[:3]
         hard = len(pair) > 3
         off = pair[3] if hard and not isinstance(pair[3], bool) else 0
-        for h in hists:
+        # the pairs with large individuals and many generations take seconds per history: a sample of the histories
+        hs = hists if (not hard or len(hists) <= 60) else random.Random(seed + pi).sample(hists, 60)
+        for h in hs:
             first_b = next(i for i, s in enumerate(h) if s["x"] == "B")
             bsuffix = [s for s in h if s["x"] == "B"]
             steps = job_for(h, a, b, words, seed + off, hard)
